@@ -241,6 +241,15 @@ def run_c13(tier):
                 if not (isinstance(f.pytype, type) and issubclass(f.pytype, base)):
                     bad(f"python-type-does-not-match-kafka-type/{f.kafka_type}", f"a subclass of {base.__name__}", repr(f.pytype))
                     continue
+                # a custom subclass must denote the same value range as the Kafka type (i32 is a subclass of
+                # i64, so the subclass test alone would accept a 32-bit type for an int64 field)
+                if hasattr(base, "__low__") and (getattr(f.pytype, "__low__", None), getattr(f.pytype, "__high__", None)) != (base.__low__, base.__high__):
+                    bad(f"python-type-range-differs-from-kafka-type/{f.kafka_type}", f"[{base.__low__}, {base.__high__}]",
+                        f"{f.pytype.__name__}: [{getattr(f.pytype, '__low__', None)}, {getattr(f.pytype, '__high__', None)}]")
+                    continue
+                if f.pytype is not base and f.pytype.__module__ == "kio.schema.types" and f.pytype.__mro__[1] is not base:
+                    bad(f"custom-type-base-differs-from-kafka-type/{f.kafka_type}", base.__name__, f.pytype.__mro__[1].__name__)
+                    continue
                 if f.kafka_type == "uuid" and not (f.item_nullable if f.array else f.nullable):
                     pass  # a non-nullable uuid annotation would still be coherent
                 null_here = f.item_nullable if f.array else f.nullable
